@@ -2,12 +2,17 @@
    (injectivity of scrypt / blake2 / sha256d; never axioms): an acceptable block is determined by any two of its three
    components (summary, evidence, transaction list), so altering any single component of an accepted block never yields
    another acceptable block; two acceptable blocks with the same id are equal; two different byte strings that both
-   decode are different blocks (canonicity).  NOT proved for all blocks: alterations that change several components at
-   once (a flipped bit in a variable-length prefix shifts every later field) -- that needs a random-oracle argument;
-   those cases are finite per block and are enumerated exhaustively by the check (every bit, every truncation point). *)
+   decode are different blocks (canonicity).
+   BYTE level (for every well-formed accepted block b above the horizon and its encoding enc_block b):
+   C06_bit_flip: flipping ANY bit at ANY position -- except bit 7 (the continuation bit) of a byte of the variable-
+   length height prefix -- yields bytes that either do not decode completely or decode to a block that full validation
+   rejects against the same chain; C06_truncation: EVERY truncation point does.
+   NOT proved for all blocks: a flipped continuation bit of the height prefix (1-3 positions per block) shifts every
+   later field, which needs a random-oracle argument; those positions -- like all others -- are enumerated
+   exhaustively per sampled block by the check. *)
 From stdpp Require Import gmap.
 From Coq Require Import NArith.
-From SkV Require Import Bytes Codec Ledger ChainState Pow Validate ChainDefs TamperProofs.
+From SkV Require Import Bytes Codec Ledger ChainState Pow Validate ChainDefs TamperProofs ByteTamperProofs.
 
 Theorem C06_single_component : forall sha scrypt blake verify P,
   (forall a b : bytes, scrypt a = scrypt b -> a = b) -> (forall a b : bytes, blake a = blake b -> a = b) ->
@@ -33,6 +38,31 @@ Theorem C06_distinct_bytes_distinct_blocks : forall bs bs' b b', bytes_wf bs -> 
   dec_block bs = Some (b, []) -> dec_block bs' = Some (b', []) -> bs <> bs' -> b <> b'.
 Proof. exact distinct_bytes_distinct_blocks. Qed.
 
+Theorem C06_bit_flip : forall sha scrypt blake verify P,
+  (forall a b : bytes, scrypt a = scrypt b -> a = b) -> (forall a b : bytes, blake a = blake b -> a = b) ->
+  forall s b b' (i : nat) (k : N) now now' s1,
+  wf_block b = true -> add_block sha scrypt blake verify P s b now = Ok s1 -> FV P b ->
+  (i < length (enc_block b))%nat -> (k < 8)%N -> ~ (in_height_prefix b i /\ k = 7%N) ->
+  dec_block (set_nth i (flip_bit k (nth i (enc_block b) 0%N)) (enc_block b)) = Some (b', []) ->
+  (b_height b' <> b_height b -> FV P b') ->
+  forall s2, add_block sha scrypt blake verify P s b' now' <> Ok s2.
+Proof. exact bit_flip_tamper_rejected. Qed.
+
+Theorem C06_truncation : forall sha scrypt blake verify P,
+  (forall a b : bytes, blake a = blake b -> a = b) ->
+  forall s b b' (n : nat) now now' s1,
+  wf_block b = true -> add_block sha scrypt blake verify P s b now = Ok s1 -> FV P b ->
+  (n < length (enc_block b))%nat -> dec_block (firstn n (enc_block b)) = Some (b', []) ->
+  forall s2, add_block sha scrypt blake verify P s b' now' <> Ok s2.
+Proof. exact truncation_tamper_rejected. Qed.
+
+Theorem C06_header_truncation_undecodable : forall b n, wf_block b = true -> (n < header_len b)%nat ->
+  dec_block (firstn n (enc_block b)) = None.
+Proof. exact header_truncation_undecodable. Qed.
+
+Print Assumptions C06_bit_flip.
+Print Assumptions C06_truncation.
+Print Assumptions C06_header_truncation_undecodable.
 Print Assumptions C06_single_component.
 Print Assumptions C06_same_id_same_content.
 Print Assumptions C06_evidence_function.
